@@ -5,7 +5,9 @@ import (
 	"fmt"
 	"io"
 	"math/big"
+	"os"
 	"os/exec"
+	"sync/atomic"
 	"strings"
 	"sync"
 	"time"
@@ -41,6 +43,7 @@ type Solver struct {
 	Queries   int
 	Time      time.Duration
 	Errors    int
+	HardTimeouts int
 	cache     map[string]cached
 	CacheHits int
 }
@@ -155,6 +158,14 @@ func (s *Solver) Check(terms []*Term, wantModel bool) (Result, *Model, error) {
 	}
 	t0 := time.Now()
 	s.Queries++
+	// hard wall-clock watchdog: z3's soft :timeout is not always honoured (strings, NRA)
+	proc := s.cmd.Process
+	killed := false
+	wd := time.AfterFunc(time.Duration(s.TimeoutMS)*time.Millisecond+3*time.Second, func() {
+		killed = true
+		proc.Kill()
+	})
+	defer wd.Stop()
 	var q strings.Builder
 	q.WriteString("(push)\n")
 	q.WriteString(body)
@@ -169,6 +180,13 @@ func (s *Solver) Check(terms []*Term, wantModel bool) (Result, *Model, error) {
 		line, e := s.readSexp()
 		if e != nil {
 			s.Close()
+			s.Time += time.Since(t0)
+			if killed {
+				s.HardTimeouts++
+				dumpSlow(body, time.Since(t0), Unknown)
+				s.cache[key] = cached{Unknown, nil}
+				return Unknown, nil, nil
+			}
 			return Unknown, nil, fmt.Errorf("solver died: %v (%s)", e, line)
 		}
 		if line == "sat" {
@@ -208,6 +226,10 @@ func (s *Solver) Check(terms []*Term, wantModel bool) (Result, *Model, error) {
 			txt, e := s.readSexp()
 			if e != nil {
 				s.Close()
+				if killed {
+					s.HardTimeouts++
+					return Unknown, nil, nil
+				}
 				return Unknown, nil, e
 			}
 			m, e = parseModel(txt, vars)
@@ -221,6 +243,7 @@ func (s *Solver) Check(terms []*Term, wantModel bool) (Result, *Model, error) {
 	}
 	io.WriteString(s.in, "(pop)\n")
 	s.Time += time.Since(t0)
+	dumpSlow(body, time.Since(t0), res)
 	if err == nil {
 		s.cache[key] = cached{res, m}
 	}
@@ -429,4 +452,18 @@ func parseModel(txt string, vars []*Term) (*Model, error) {
 		}
 	}
 	return m, nil
+}
+
+var slowN int32
+
+func dumpSlow(body string, d time.Duration, r Result) {
+	dir := os.Getenv("VERIF_SLOWDIR")
+	if dir == "" || d < 2*time.Second {
+		return
+	}
+	n := atomic.AddInt32(&slowN, 1)
+	if n > 40 {
+		return
+	}
+	os.WriteFile(fmt.Sprintf("%s/slow_%d_%s_%dms.smt2", dir, n, r, d.Milliseconds()), []byte(body+"(check-sat)\n"), 0o644)
 }
